@@ -72,6 +72,14 @@ partial def parsePipe : Sexp → Option Pipe
   | .list [.atom "pairsecond", p] => do pure (.pairSecond (← parsePipe p))
   | s => (parseSrc s).map Pipe.src
 
+def parsePeekOp (o : Sexp) : Option PeekOp :=
+  match o.atom? with
+  | some "n" => some PeekOp.next
+  | some "b" => some PeekOp.back
+  | some "p" => some PeekOp.peek
+  | some "q" => some PeekOp.peekBack
+  | _ => none
+
 def parseCons : Sexp → Option Cons
   | .atom "tolist" => some .toList
   | .atom "totuple" => some .toTuple
@@ -99,6 +107,17 @@ def parseCons : Sexp → Option Cons
   | .list [.atom "advance", n] => n.nat?.map Cons.advance
   | .atom "unpack" => some .unpack
   | .list [.atom "copy", k, first] => do pure (.copyAt (← k.nat?) (first.atom? == some "1"))
+  | .list [.atom "copyops", .list pre, .list post] => do
+    let post ← post.mapM (fun (o : Sexp) => match o with
+      | .list [w, d] => some (w.atom? == some "c", d.atom? == some "n")
+      | _ => none)
+    pure (.copyOps (pre.map (fun d => d.atom? == some "n")) post)
+  | .list [.atom "peekcopy", .list pre, .list post] => do
+    let pre ← pre.mapM (fun (o : Sexp) => parsePeekOp o)
+    let post ← post.mapM (fun (o : Sexp) => match o with
+      | .list [w, d] => (parsePeekOp d).map (fun op => (w.atom? == some "c", op))
+      | _ => none)
+    pure (.peekCopy pre post)
   | .list (.atom "peekops" :: ops) =>
     (ops.mapM (fun (o : Sexp) => match o.atom? with
       | some "n" => some PeekOp.next
